@@ -23,6 +23,17 @@ def x_obligations(tier):
         for (a, b) in pairs:
             o.append(Obl(f"C04-apply2[{base},{KEYS[a]}&{KEYS[b]},len<=1]", M, "apply2", env={"VF_BASE": base, "VF_KI": str(a), "VF_KI2": str(b), "VF_N": "1"}, timeout=T,
                          family="C04-apply", bound=f"base {base}, keys {KEYS[a]},{KEYS[b]}, values of length 1"))
+    # deeper keys added in another order than the template's (1 to 3 pairs)
+    rev = [("h", "", 2, 1, 1), ("h/a", "version=v1&", 2, None, 1), ("h", "version=v1&q=q1&", 1, None, 1)]
+    if tier == "thorough":
+        rev += [("h", "version=v1&", 3, 1, 2), ("h/a", "ext=m&o=g&", 4, 2, 2), ("h/s", "o=g&", 4, 3, 2), ("h", "q=q1&", 4, 1, 2), ("*", "", 2, 1, 1)]
+    for base, qpre, a, b, n in rev:
+        envv = {"VF_BASE": base, "VF_QPRE": qpre, "VF_KI": str(a), "VF_N": str(n)}
+        if b is not None:
+            envv["VF_KI2"] = str(b)
+        for entry in ("string", "get_with"):
+            o.append(Obl(f"C04-apply-unordered[{base}?{qpre}{KEYS[a]}{'&' + KEYS[b] if b is not None else ''},{entry},len<={n}]", M, "apply2" if b is not None else "apply1",
+                         env=dict(envv, VF_ENTRY=entry), timeout=T, family="C04-apply", bound=f"base {base}, query {qpre!r} + symbolic values (len <= {n}) for keys given in non-template order"))
     for base in bases[:3]:
         for ki in (2, 4, 7):
             o.append(Obl(f"C04-anyvalue[{base},{KEYS[ki]}]", M, "blank", env={"VF_BASE": base, "VF_KI": str(ki), "VF_N": "1" if tier == "quick" else "2"}, timeout=T, family="C04-total",
